@@ -746,7 +746,7 @@ def validate_recorded(rep, what, repo_tests=False):
     if not named:
         raise Machinery("no traces recorded")
     n = TV.check_traces(rep, named, what)
-    TV.self_test(named)
+    TV.self_test(getattr(TV.check_traces, "accepted", named))
     rep.sample({"recorded_trace": named[0][0], "first_events": named[0][1][:6]}, maxn=6)
     return n
 
